@@ -255,6 +255,9 @@ func runScenario(cfg Cfg, sc scenario, idx int, seed int64, rep *reportT) []map[
 	if cfg.RESP2 {
 		invalOn = false
 	}
+	if len(sc.Script) > 0 && sc.Script[0].Op == "opt" && sc.Script[0].Kind == "nocache" {
+		cfg.NoCache = true // the model's run without the client-side cache
+	}
 	r, err := newRun(cfg, "scenario", seed, invalOn, rep.Report)
 	if err != nil {
 		rep.Inconcl("NewClient failed: %v (cfg %s)", err, cfg.Name)
@@ -276,8 +279,32 @@ func runScenario(cfg Cfg, sc scenario, idx int, seed int64, rep *reportT) []map[
 	var mu sync.Mutex
 	var wg sync.WaitGroup
 	npush := 0
+	// the model inserts a Pub/Sub push only while the server has the channel subscribed: wait for that (the machine may
+	// be loaded; without the wait the push would precede the SUBSCRIBE and the run would be another scenario)
+	subscribed := func(ch string) bool {
+		return waitUntil(3*time.Second, func() bool {
+			for _, c := range r.conns() {
+				chs, _, _ := c.Subscriptions()
+				for _, x := range chs {
+					if x == ch {
+						return true
+					}
+				}
+			}
+			return false
+		})
+	}
+	ownChan := func(p int) string {
+		mu.Lock()
+		defer mu.Unlock()
+		if c := cur[p]; c != nil {
+			return fmt.Sprintf("u:%d.1", c.id)
+		}
+		return ""
+	}
 	for _, s := range sc.Script {
 		switch s.Op {
+		case "opt":
 		case "call":
 			mu.Lock()
 			prev := cur[s.P]
@@ -306,6 +333,8 @@ func runScenario(cfg Cfg, sc scenario, idx int, seed int64, rep *reportT) []map[
 					r.callCache(ctx, cancel, "cache", 1, false, on)
 				case "sub":
 					r.callReceive(r.client, 0, ctx, cancel, "SUBSCRIBE", []string{"sh"}, on)
+				case "subown":
+					r.callReceive(r.client, 0, ctx, cancel, "SUBSCRIBE", nil, on)
 				}
 			}()
 			<-started
@@ -326,9 +355,27 @@ func runScenario(cfg Cfg, sc scenario, idx int, seed int64, rep *reportT) []map[
 			case "flush":
 				conn.Inject(fakeredis.Push(fakeredis.Bulk("invalidate"), fakeredis.Null()))
 			case "message":
+				if !subscribed("sh") {
+					r.feat("diverged")
+				}
 				r.srv.Do("PUBLISH", "sh", fmt.Sprintf("m%d", npush))
 			case "unsubscribe":
+				if !subscribed("sh") {
+					r.feat("diverged")
+				}
 				pubsubConn().Inject(fakeredis.Push(fakeredis.Bulk("unsubscribe"), fakeredis.Bulk("sh"), fakeredis.Int(0)))
+			case "msgown": // a message on the own channel of caller p's current Receive
+				if ch := ownChan(s.P); ch != "" && subscribed(ch) {
+					r.srv.Do("PUBLISH", ch, fmt.Sprintf("m%d", npush))
+				} else {
+					r.feat("diverged")
+				}
+			case "unsubown": // the server ends the subscription of that channel on its own
+				if ch := ownChan(s.P); ch != "" && subscribed(ch) {
+					pubsubConn().Inject(fakeredis.Push(fakeredis.Bulk("unsubscribe"), fakeredis.Bulk(ch), fakeredis.Int(0)))
+				} else {
+					r.feat("diverged")
+				}
 			}
 		case "cut":
 			conn.Cut()
@@ -491,7 +538,7 @@ func runPubSub(cfg Cfg, seed int64, rep *reportT) []map[string]any {
 	var wg sync.WaitGroup
 	nrecv := 2 + rng.Intn(3)
 	ending := rng.Intn(5) // 0 cancel all, 1 client unsubscribe, 2 server unsubscribe push, 3 cut, 4 mixed
-	for i := 0; i < nrecv; i++ {
+	startReceiver := func() {
 		cmd := "SUBSCRIBE"
 		var shared []string
 		switch rng.Intn(6) {
@@ -529,6 +576,9 @@ func runPubSub(cfg Cfg, seed int64, rep *reportT) []map[string]any {
 		if rng.Intn(2) == 0 {
 			time.Sleep(time.Duration(rng.Intn(300)) * time.Microsecond)
 		}
+	}
+	for i := 0; i < nrecv; i++ {
+		startReceiver()
 	}
 	// regular traffic on the same client meanwhile
 	stop := make(chan struct{})
@@ -630,7 +680,8 @@ func runPubSub(cfg Cfg, seed int64, rep *reportT) []map[string]any {
 		}
 		publish(2)
 	} else {
-		for i, x := range list {
+		for i := 0; i < len(list); i++ {
+			x := list[i]
 			how := ending
 			if ending == 4 {
 				how = rng.Intn(3)
@@ -638,6 +689,20 @@ func runPubSub(cfg Cfg, seed int64, rep *reportT) []map[string]any {
 			endOne(x, how)
 			if i == 0 || rng.Intn(2) == 0 {
 				publish(1 + rng.Intn(4)) // the others keep receiving
+			}
+			if i == 0 && len(list) >= 2 && len(list) < 6 && rng.Intn(3) > 0 {
+				// a Receive that starts after another one has ended while further ones are alive: it must get a
+				// subscription of its own (its own end, its own messages), whatever was freed by the one that left
+				waitDone(x.c, 2*time.Second) // (one that does not return is dealt with at the end of the run)
+				r.settle(300*time.Microsecond, 10*time.Millisecond)
+				for k := 0; k < 1+rng.Intn(2); k++ {
+					startReceiver()
+				}
+				mu.Lock()
+				list = append([]*rcv(nil), rcvs...)
+				mu.Unlock()
+				r.feat("late-subscribe")
+				publish(1 + rng.Intn(3))
 			}
 		}
 	}
@@ -678,10 +743,22 @@ func waitDone(c *call, d time.Duration) bool {
 // are interleaved; some runs end with a cut of a connection (exactly one more nil).
 func runInval(cfg Cfg, seed int64, rep *reportT) []map[string]any {
 	rng := rand.New(rand.NewSource(seed))
+	// every third run: no client-side cache (DisableCache).  The connection then has no tracking of its own; the driver
+	// turns on broadcast tracking by hand, as a user of OnInvalidations without the cache does.
+	nocache := curRun%3 == 2
+	if nocache {
+		cfg.NoCache = true
+	}
 	r, err := newRun(cfg, "inval", seed, true, rep.Report)
 	if err != nil {
 		rep.Inconcl("NewClient failed: %v (cfg %s)", err, cfg.Name)
 		return nil
+	}
+	if nocache {
+		r.feat("nocache")
+		r.bounded(func() {
+			r.callPlain(r.client, 0, r.ctx, r.client.B().Arbitrary("CLIENT", "TRACKING", "ON", "BCAST").Build())
+		})
 	}
 	var wg sync.WaitGroup
 	ngo := 2 + rng.Intn(2)
@@ -696,13 +773,9 @@ func runInval(cfg Cfg, seed int64, rep *reportT) []map[string]any {
 				case 0:
 					r.callTagged(r.client, 0, r.ctx, nil, []string{"str", "map"}, false, nil)
 				case 1:
-					n := r.nextCall.Load() + 1
 					r.callCache(r.ctx, nil, "cache", 2, false, nil)
-					_ = n
 				default:
-					before := r.nextCall.Load()
 					r.callCache(r.ctx, nil, "cache", 1, false, nil)
-					_ = before
 				}
 				// another client writes keys that were just cached: invalidation pushes
 				if grng.Intn(3) > 0 {
@@ -716,7 +789,7 @@ func runInval(cfg Cfg, seed int64, rep *reportT) []map[string]any {
 		}()
 	}
 	r.await(&wg)
-	if rng.Intn(3) == 0 && !r.hung() {
+	if (rng.Intn(3) == 0 || (nocache && rng.Intn(2) == 0)) && !r.hung() {
 		if cs := r.conns(); len(cs) > 0 {
 			cs[rng.Intn(len(cs))].Cut()
 			r.feat("cut")
@@ -733,6 +806,14 @@ func runInval(cfg Cfg, seed int64, rep *reportT) []map[string]any {
 
 // invalidateSome overwrites some of the keys the server currently tracks.
 func (r *run) invalidateSome(rng *rand.Rand) {
+	if r.cfg.NoCache {
+		// broadcast tracking: every write is announced to the connections that turned it on
+		for i := 0; i < 1+rng.Intn(2); i++ {
+			r.srv.Do("SET", fmt.Sprintf("nk:%d", rng.Intn(6)), "changed")
+		}
+		r.feat("invalidate")
+		return
+	}
 	var keys []string
 	for _, c := range r.conns() {
 		keys = append(keys, c.TrackedKeys()...)
@@ -755,6 +836,11 @@ func (r *run) invalidateSome(rng *rand.Rand) {
 func runDedicated(cfg Cfg, seed int64, rep *reportT) []map[string]any {
 	rng := rand.New(rand.NewSource(seed))
 	invalOn := rng.Intn(2) == 0
+	// every third run without the client-side cache: a session that wants invalidations turns on broadcast tracking
+	nocache := curRun%3 == 1
+	if nocache {
+		cfg.NoCache = true
+	}
 	r, err := newRun(cfg, "dedicated", seed, invalOn, rep.Report)
 	if err != nil {
 		rep.Inconcl("NewClient failed: %v (cfg %s)", err, cfg.Name)
@@ -769,7 +855,7 @@ func runDedicated(cfg Cfg, seed int64, rep *reportT) []map[string]any {
 		for s := 1; s <= nsess && !r.hung(); s++ {
 			sess := s
 			dc, release := r.client.Dedicate()
-			var nmsg, ninv int64
+			var nmsg, ninv, nlossnil int64
 			var cmu sync.Mutex
 			watch := func(ch <-chan error) {
 				watchers.Add(1)
@@ -807,6 +893,9 @@ func runDedicated(cfg Cfg, seed int64, rep *reportT) []map[string]any {
 					r.log(E{Ev: "HookInval", Sess: sess, Vals: []string{keysVal(keys)}})
 					cmu.Lock()
 					ninv++
+					if keys == nil {
+						nlossnil++
+					}
 					cmu.Unlock()
 				})
 				r.log(E{Ev: "HookSet", Sess: sess, Flag: true})
@@ -815,6 +904,10 @@ func runDedicated(cfg Cfg, seed int64, rep *reportT) []map[string]any {
 			}
 			// the session's first command tells the specification which connection it owns
 			r.callTagged(dc, sess, r.ctx, nil, []string{"str"}, false, nil)
+			if nocache && hooks != 0 {
+				r.feat("nocache")
+				r.callPlain(dc, sess, r.ctx, dc.B().Arbitrary("CLIENT", "TRACKING", "ON", "BCAST").Build())
+			}
 			wantMsg, wantInv := int64(0), int64(0)
 			if hooks != 1 {
 				// subscribe through Do: the id is carried by the first channel
@@ -843,7 +936,7 @@ func runDedicated(cfg Cfg, seed int64, rep *reportT) []map[string]any {
 				c := r.beginReserved(rs, "multi", sess, nil, []string{"", id}, argvs)
 				res := dc.DoMulti(r.ctx, c1, c2)
 				r.end(c, []string{canonR(res[0]), canonR(res[1])})
-				tracked := false
+				tracked := nocache && hooks != 0 // broadcast mode announces every write
 				for _, sc := range r.conns() {
 					for _, k := range sc.TrackedKeys() {
 						if k == key {
@@ -860,16 +953,24 @@ func runDedicated(cfg Cfg, seed int64, rep *reportT) []map[string]any {
 				}
 			}
 			waitUntil(5*time.Second, func() bool { cmu.Lock(); defer cmu.Unlock(); return nmsg >= wantMsg && ninv >= wantInv })
-			if s == nsess && rng.Intn(3) == 0 {
+			if s == nsess && (rng.Intn(3) == 0 || (nocache && rng.Intn(2) == 0)) {
 				// the last session loses its connection instead of being released
+				didCut := false
 				for _, sc := range r.conns() {
 					if a, _, _ := sc.Subscriptions(); len(a) > 0 || len(sc.TrackedKeys()) > 0 || hooks != 0 {
 						sc.Cut()
 						r.feat("cut")
+						didCut = true
 						break
 					}
 				}
-				time.Sleep(2 * time.Millisecond)
+				if didCut && hooks != 0 {
+					// the invalidation hook is owed one nil for the lost connection; release() takes the hooks away, so
+					// give the client ample time to deliver it first (no verdict here: LossNilOnce judges the log)
+					waitUntil(5*time.Second, func() bool { cmu.Lock(); defer cmu.Unlock(); return nlossnil >= 1 })
+				} else {
+					time.Sleep(2 * time.Millisecond)
+				}
 				release()
 			} else {
 				release()
